@@ -524,6 +524,77 @@ end NonVacuityAlign
 
 end stages
 
+/-! ## The role of positive weights (round 10, seed C02-j)
+
+`ErrFree` (field `entries`) and `RawErrFree` (`RawReadOk`) demand `0 < weight` for every allele observation; every theorem above
+that concludes "truth up to one swap per read-connected component" uses it.  The weight is what the solver pays to contradict an
+observation: a weight-0 observation carries no phase information, but the read still LINKS the columns it covers
+(`covers`/`Linked`/`Connected` and C03's `find_components` do not look at weights).  With the documented behaviour the
+weight is the constant 30 with a reference and the base quality without. -/
+section weights
+
+/-- made explicit: the hypothesis of the solver theorems includes positive weights on every observation -/
+theorem errfree_weights_positive (h : ErrFree I hap src) (r : Nat) (hr : r < I.nreads) :
+    ∀ e ∈ (I.read r).entries, 1 ≤ e.2.2 := fun e he => (h.entries r hr e he).2.2.2.1
+
+/-- … and so does stage A's contract on the raw reads -/
+theorem rawErrFree_weights_positive (raws : List RawRead) (hapAt : Nat → Nat) (srcC : Nat → Bool)
+    (h : RawErrFree raws hapAt srcC) (k : Nat) (hk : k < raws.length) :
+    ∀ v ∈ (raws.getD k default).variants, 1 ≤ v.2.2 := fun v hv => ((h k hk).2 v hv).1
+
+/-- two islands (columns 0–1 and 2–3), each covered by a weight-30 read of either haplotype, joined ONLY by read 4, an
+    error-free copy of haplotype 0 over columns 1–2 whose observations have weight 0 (base quality 0).  Truth: haplotype 0 carries
+    0 everywhere. -/
+def zwInst : Inst :=
+  { ncols := 4
+    reads := [ { ind := 0, first := 0, last := 1, entries := [(0, 0, 30), (1, 0, 30)] },
+               { ind := 0, first := 0, last := 1, entries := [(0, 1, 30), (1, 1, 30)] },
+               { ind := 0, first := 1, last := 2, entries := [(1, 0, 0), (2, 0, 0)] },
+               { ind := 0, first := 2, last := 3, entries := [(2, 0, 30), (3, 0, 30)] },
+               { ind := 0, first := 2, last := 3, entries := [(2, 1, 30), (3, 1, 30)] } ]
+    nind := 1
+    trios := []
+    geno := [ [[none, some 0, none], [none, some 0, none], [none, some 0, none], [none, some 0, none]] ]
+    recomb := [0, 10, 10, 10] }
+
+theorem zwInst_wf : WF zwInst := by
+  constructor
+  intro r1 r2 h1 h2
+  have hall : ∀ r2, r2 < 5 → ∀ r1, r1 ≤ r2 → (zwInst.read r1).first ≤ (zwInst.read r2).first := by decide
+  exact hall r2 h2 r1 h1
+
+/-- **zero_weight_link_witness**.  Without positive weights the conclusion fails: every read of `zwInst` carries the allele of
+    its true haplotype (reads 0, 2, 3 copy haplotype 0, reads 1, 4 haplotype 1; only the weights of read 2 are 0), all reads are
+    connected (read 0 — read 2 — read 3), yet BOTH relative orientations of the two islands have cost 0 = the optimum: the true
+    bipartition and the one with the right island exchanged; the second one phases column 2 as `1|0` next to column 0 as `0|1`
+    within the one read-connected component (one phase set for `find_components`) — not the truth and not its swap. -/
+theorem zero_weight_link_witness :
+    WF zwInst ∧ dpCost zwInst = some 0 ∧
+    (∀ r, r < zwInst.nreads → ∀ e ∈ (zwInst.read r).entries,
+        e.2.1 = (if [false, true, false, false, true].getD r false then 1 - 0 else 0)) ∧
+    Connected zwInst 0 3 ∧ Connected zwInst 0 4 ∧
+    totalCost zwInst [false, true, false, false, true] [0, 0, 0, 0] = some 0 ∧
+    totalCost zwInst [false, true, false, true, false] [0, 0, 0, 0] = some 0 ∧
+    getAlleles zwInst 0 (restrict [false, true, false, true, false] (zwInst.activeAt 0)) 0 = some [(0, 1)] ∧
+    getAlleles zwInst 2 (restrict [false, true, false, true, false] (zwInst.activeAt 2)) 0 = some [(1, 0)] ∧
+    getAlleles zwInst 2 (restrict [false, true, false, false, true] (zwInst.activeAt 2)) 0 = some [(0, 1)] := by
+  have c03 : Connected zwInst 0 3 :=
+    .step (r2 := 2) (.step (r2 := 0) (.refl 0 (by decide)) (by decide) ⟨1, by decide, by decide⟩) (by decide)
+      ⟨2, by decide, by decide⟩
+  refine ⟨zwInst_wf, by decide +kernel, by decide, c03, .step c03 (by decide) ⟨2, by decide, by decide⟩,
+    by decide +kernel, by decide +kernel, by decide +kernel, by decide +kernel, by decide +kernel⟩
+
+/-- the same instance with weight 30 on read 2 is `ErrFree`, and then `zero_cost_separates` excludes the second bipartition:
+    its cost is not 0 -/
+def zwInstPos : Inst := { zwInst with reads := zwInst.reads.set 2 { ind := 0, first := 1, last := 2, entries := [(1, 0, 30), (2, 0, 30)] } }
+theorem zwInstPos_errfree : ErrFree zwInstPos (fun _ => 0) (fun r => [false, true, false, false, true].getD r false) := by
+  constructor <;> decide
+example : totalCost zwInstPos [false, true, false, true, false] [0, 0, 0, 0] ≠ some 0 := fun hz => by
+  have := zero_cost_separates zwInstPos_errfree hz 2 3 ⟨2, by decide, by decide⟩
+  revert this; decide
+
+end weights
+
 /-! ## The premise "the reads given for a sample": which alignments are a sample's reads (round 8)
 
 `whatshap phase` takes any number of alignment files; read-group ids are only unique within ONE file (per-sample BAMs all
